@@ -363,3 +363,99 @@ def a06_index_methods(ctx):
             r.violate(key + '|no-ok', 'new() has no Ok outcome in the abstract semantics', b.file, b.line)
     r.floor('index methods x {new, next}', 4, n)
     return r
+
+
+def a07_deserialize_accepts_valid(ctx):
+    """C01 / C13: Window::deserialize accepts every well-formed (buffer, oldest-index) pair -- in particular those of the largest window
+    new() can build -- and rebuilds exactly that representation.  (A01d shows the other half: malformed data leaves through Err.)"""
+    f = ctx.facts('default')
+    set_period_type(f)
+    r = RuleResult('A07', 'Window::deserialize: for every decoded (buf, index) with 1 <= buf.len() <= PeriodType::MAX - 1 and index < buf.len(), and for the empty window ([], 0), the result is Ok '
+                          '(never Err) and the rebuilt window has size == buf.len(), cursor == index and satisfies the representation invariant')
+    bid = next((b for b in f.bodies if b.startswith('G:<core::window::Window<T> as ') and b.endswith('Deserialize<\'de>>::deserialize')), None)
+    if bid is None:
+        raise Broken('Window::deserialize not found')
+    b0 = f.bodies[bid]
+    helper_def = None
+    for bi, t in Body_(b0).calls():
+        d = t['callee'].get('def') or ''
+        if d.endswith('Deserialize::deserialize'):
+            helper_def = d
+            dest_ty = t['dest']
+            break
+    if helper_def is None:
+        raise Broken('Window::deserialize does not decode a helper struct')
+    n = 0
+    for label, lo, hi in (('any valid length', 1, PT['max']), ('largest window new() accepts', PT['max'], PT['max']), ('length 1', 1, 1),
+                          ('empty window', 0, 0)):
+        ex = Exec(f)
+        st = St()
+        b = ex.body(bid)
+        held = {}
+
+        def supply(ex_, st_, fr, t, lo=lo, hi=hi, held=held):
+            resv = ex_.dest_top(st_, fr, t)
+            if not (resv[0] == 'adt' and 'Ok' in resv[3]):
+                raise Broken('unexpected shape of the decoded helper')
+            hv = st_.cells[resv[3]['Ok']['0']]
+            if hv[0] != 'adt':
+                raise Broken('decoded helper is not a struct')
+            fl = next(iter(hv[3].values()))
+            if 'buf' not in fl or 'index' not in fl:
+                raise Broken('helper struct lacks buf / index')
+            ln = ex_.mk_int(st_, 'usize', lo, hi)
+            idx = ex_.mk_int(st_, PT['ty'], 0, max(hi - 1, 0))
+            if hi > 0:
+                ex_.assume_cmp(st_, 'Lt', idx[2], ln[2], True)      # the empty window is written as (buf = [], index = 0)
+            st_.cells[fl['buf']] = ('buf', ln[2])
+            st_.cells[fl['index']] = idx
+            held['len'], held['idx'] = ln[2], idx[2]
+            return ('adt', resv[1], frozenset(['Ok']), resv[3])
+        ex.callee_overrides = {helper_def: supply}
+        key = 'Window::deserialize|' + label
+        r.inst(key)
+        n += 1
+        try:
+            outs = ex.run_fn(b, st, [ex.top_of(st, b.locals[1]['tyj'])], [bid])
+        except Budget:
+            r.violate(key + '|budget', 'analysis budget exceeded', b.file, b.line)
+            continue
+        if not held:
+            raise Broken('the helper decode call was not reached')
+        variants = set()
+        for s2, rv in outs:
+            if rv[0] == 'adt' and rv[2] is not None:
+                variants |= set(rv[2])
+                if 'Ok' in rv[2]:
+                    wv = s2.cells[rv[3]['Ok']['0']]
+                    if wv[0] == 'adt' and 'Window' in wv[3]:
+                        fl = wv[3]['Window']
+                        size = s2.cells[fl['size']]
+                        cur = s2.cells[fl['index']]
+                        if not (size[0] == 'int' and (size[2] == held['len'] or ex.eval_cmp(s2, 'Eq', size[2], held['len']) is True)):
+                            r.violate(key + '|size', 'the rebuilt window does not have size == decoded buffer length', b.file, b.line)
+                        if not (cur[0] == 'int' and (cur[2] == held['idx'] or ex.eval_cmp(s2, 'Eq', cur[2], held['idx']) is True)):
+                            r.violate(key + '|cursor', 'the rebuilt window does not start at the decoded oldest-index', b.file, b.line)
+                        for bmsg in check_invariant(ex, s2, wv, None, None, hi > 0):
+                            if not bmsg.startswith('s_1'):
+                                r.violate('%s|invariant|%s' % (key, bmsg.split(' (')[0]), 'the rebuilt window violates the representation invariant: %s' % bmsg, b.file, b.line)
+            else:
+                variants.add('?')
+        if 'Err' in variants or '?' in variants or not variants:
+            r.violate(key + '|rejected', 'Window::deserialize can return %s for well-formed window data (%s): a window that new() builds and serialize() writes cannot be restored' % (
+                sorted(variants) or 'nothing', label), b.file, b.line)
+        else:
+            r.sample({'decoded': label, 'result': sorted(variants), 'panic sites refuted': ex.discharged})
+        seen = set()
+        for ob in ex.obligations:
+            if ob.key() in seen:
+                continue
+            seen.add(ob.key())
+            r.violate('%s|%s' % (key, ob.key()), 'Window::deserialize can reach a %s on well-formed data: %s' % (ob.kind, ob.detail), ob.file, ob.line)
+    r.floor('well-formed decode cases', 4, n)
+    return r
+
+
+def Body_(bj):
+    from mir import Body
+    return Body(bj)
